@@ -280,32 +280,99 @@ def suite_float(ctx):
         log = not mapping.startswith('L')
         px = base if log else np.log10(base)
         pz = near if log else np.log10(near)
-        model = emg3d.Model(gi, property_x=px, property_z=pz, mapping=mapping)
-        try:
-            with warnings.catch_warnings():
-                warnings.simplefilter('ignore')
-                new = model.interpolate_to_grid(go)
-        except Exception as e:      # noqa
-            ctx.violation(
-                'interpolate_to_grid-differs',
-                f'Model.interpolate_to_grid ({mapping}) raised '
-                f'{type(e).__name__}: {str(e)[:120]}',
-                {'mapping': mapping})
-            continue
-        for name, arr in [('property_x', px), ('property_z', pz)]:
-            ref = maps.interpolate(gi, arr, go, method='volume', log=log)
-            got = getattr(new, name)
-            if not np.allclose(got, ref, rtol=1e-13, atol=0):
+        mur = rng.uniform(0.5, 3.0, gi.shape_cells)
+        epr = rng.uniform(1.0, 9.0, gi.shape_cells)
+        model = emg3d.Model(gi, property_x=px, property_z=pz, mapping=mapping,
+                            mu_r=mur, epsilon_r=epr)
+        # default options, and the documented pass-through of `log`
+        for opts in ({}, {'log': False}, {'log': True}):
+            if opts.get('log') and (np.any(px <= 0) or np.any(pz <= 0)):
+                continue    # log-averaging the logarithms: not a valid call
+            try:
+                with warnings.catch_warnings():
+                    warnings.simplefilter('ignore')
+                    new = model.interpolate_to_grid(go, **opts)
+            except Exception as e:      # noqa
                 ctx.violation(
                     'interpolate_to_grid-differs',
-                    f'Model.interpolate_to_grid ({mapping}, {name}) differs '
-                    f'from the volume average of that property (max rel. '
-                    f'deviation {np.max(np.abs(got/ref-1)):.3g})',
-                    {'mapping': mapping, 'property': name})
-        ctx.count(key=('to_grid', mapping))
+                    f'Model.interpolate_to_grid ({mapping}, {opts}) raised '
+                    f'{type(e).__name__}: {str(e)[:120]}',
+                    {'mapping': mapping, 'opts': repr(opts)})
+                continue
+            plog = opts.get('log', log)
+            llog = opts.get('log', True)
+            for name, arr, lg in [('property_x', px, plog),
+                                  ('property_z', pz, plog),
+                                  ('mu_r', mur, llog),
+                                  ('epsilon_r', epr, llog)]:
+                if lg and np.any(arr <= 0):
+                    continue        # log of a log-property: not meaningful
+                ref = maps.interpolate(gi, arr, go, method='volume', log=lg)
+                got = getattr(new, name)
+                if not np.allclose(got, ref, rtol=1e-13, atol=0):
+                    ctx.violation(
+                        'interpolate_to_grid-differs',
+                        f'Model.interpolate_to_grid ({mapping}, {name}, '
+                        f'options {opts}) differs from the volume average of '
+                        f'that property with log={lg} (max rel. deviation '
+                        f'{np.max(np.abs(got/ref-1)):.3g})',
+                        {'mapping': mapping, 'property': name,
+                         'opts': repr(opts)})
+            ctx.count(key=('to_grid', mapping, repr(opts)))
     ctx.oblige('correspondence: maps.interpolate(volume) == closed form '
                '(64 eps); monitors: log symmetry, range, identity, adjoint '
                'pairing, Model.interpolate_to_grid', 'correspondence',
+               not bad and len(ctx.violations) == nv0, str(bad[:2]))
+    return bad
+
+
+def suite_sim(ctx):
+    """In a simulation: the gradient side uses the transpose of the averaging
+    the forward side uses, also when model grid and computational grid have
+    the same number of cells (other nodes)."""
+    import emg3d
+    from harness.gradworld import World
+    from harness.c07 import ExitRec
+    rng = ctx.nprng('sim')
+    bad = []
+    nv0 = len(ctx.violations)
+    for t in range(3 if ctx.thorough else 1):
+        case = ['isotropic', 'VTI', 'triaxial'][t % 3]
+        mapping = ['Conductivity', 'LgResistivity', 'LnConductivity'][t % 3]
+        w = World(emg3d, rng, case, mapping, shape=(8, 8, 8), nsrc=1, nfreq=1,
+                  gridding='single')
+        sim = w.sim()
+        with warnings.catch_warnings(), ExitRec(emg3d) as er:
+            warnings.simplefilter('ignore')
+            _ = sim.misfit
+            x0 = w.x0()
+            v = rng.standard_normal(x0.shape)
+            jv = np.array(sim.jvec(v if case != 'isotropic' else v[0]),
+                          copy=True)
+            fin = np.isfinite(sim.data.observed.data)
+            wv = rng.standard_normal(jv.shape) + \
+                1j*rng.standard_normal(jv.shape)
+            wv[~fin] = 0
+            jt = np.array(sim.jtvec(wv), copy=True)
+        cg = sim.get_grid('Tx-1', 'f-1')
+        if not er.ok or cg == w.grid:
+            continue
+        lhs = float(np.sum(np.conj(wv)*jv).real)
+        rhs = float(np.sum(jt.reshape(x0.shape)*v))
+        sc = float(np.sum(np.abs(wv)*np.abs(jv)))
+        if not abs(lhs-rhs) <= 1e-7*sc:
+            bad.append((case, mapping, lhs, rhs))
+            ctx.violation(
+                'adjoint-not-transpose',
+                f'Simulation ({case}, {mapping}; model grid '
+                f'{w.grid.shape_cells}, computational grid '
+                f'{tuple(cg.shape_cells)} with other nodes): Re<w, J v> = '
+                f'{lhs!r} but <J^T w, v> = {rhs!r}',
+                {'case': case, 'mapping': mapping})
+        ctx.count(key=('sim-transpose', case, mapping))
+    ctx.oblige('monitor: in a Simulation whose computational grid has the '
+               'cell count of the model grid but other nodes, J^T uses the '
+               'transpose of the averaging J uses', 'monitor',
                not bad and len(ctx.violations) == nv0, str(bad[:2]))
     return bad
 
@@ -319,6 +386,7 @@ def run(ctx):
     ]
     b1 = suite_exact(ctx)
     b2 = suite_float(ctx)
+    suite_sim(ctx)
     if (b1 or b2) and not ctx.violations:
         ctx.violation('model-correspondence-broken',
                       'volume averaging no longer computes the closed form '
